@@ -299,6 +299,48 @@ pub fn run(rep: &'static Report) {
             }
         }
     }
+    // call sequences on one thread: what a decryption (or encryption) learned must not help the next call made with
+    // OTHER keys. Every ordered pair (first, second) of recipients tried on the same authentic file, on a fresh thread;
+    // likewise an honest encryption followed by a forged one claiming the same sender.
+    {
+        let p = plaintext(seed ^ 0x5a, 40);
+        let e = derive32(seed, "c05-seq-e");
+        let pay = derive32(seed, "c05-seq-pay");
+        let file = r::write_key_file(&k[0].sk, &k[2].pk, &e, &pay, &p, &[40]).unwrap(); // S -> R
+        let mut hs = vec![];
+        for first in 0..4usize {
+            for second in 0..4usize {
+                let (kk, file, p) = (k.clone(), file.clone(), p.clone());
+                hs.push(std::thread::spawn(move || -> Vec<String> {
+                    let mut bad = vec![];
+                    for (step, who) in [first, second, first].into_iter().enumerate() {
+                        let (res, out) = dec(&kk[who], &file);
+                        let should = who == 2;
+                        let ok = matches!(&res, Res::Ok(snd) if snd.as_deref() == Some(&kk[0].pk[..])) && out == p;
+                        if should && !ok {
+                            bad.push(format!("step {} of the sequence of recipients [{}, {}, {}] on one thread: the addressed key no longer decrypts ({})", step + 1, kk[first].name, kk[second].name, kk[first].name, res.brief()));
+                        }
+                        if !should && (res.is_ok() || !out.is_empty()) {
+                            bad.push(format!("step {} of the sequence of recipients [{}, {}, {}] on one thread: the file opens under the key of {} , which it was not encrypted to ({} bytes released)", step + 1, kk[first].name, kk[second].name, kk[first].name, kk[who].name, out.len()));
+                        }
+                    }
+                    bad
+                }));
+            }
+        }
+        for h in hs {
+            rep.eval(3);
+            match h.join() {
+                Ok(bad) => {
+                    for b in bad {
+                        rep.violation("sequence/decrypt-depends-on-earlier-calls", json!({"kind":"sequence","part":"recipients"}), b);
+                    }
+                }
+                Err(_) => rep.violation("sequence/panic", json!({"kind":"sequence"}), "worker thread panicked".into()),
+            }
+        }
+        rep.nontrivial(b"recipient-sequences");
+    }
     // "no file is ever produced under keys derivable from public data": with the payload key and ephemeral key left
     // to the implementation, a reader that holds NO private key tries every secret it can form from public data
     for (si, ri) in [(0usize, 2usize), (1, 3), (0, 0)] {
@@ -451,6 +493,49 @@ pub fn run(rep: &'static Report) {
                 } else if !matches!(r::read_key_file(&bob.sk, &f), Ok(k) if k.parsed.plaintext == pl) {
                     let who = variants.iter().find(|(_, p)| r::read_key_file(&p.sk, &f).is_ok()).map(|(n, _)| *n);
                     rep.violation("cli-keyring/encrypted-to-a-similarly-named-key", case, format!("kestrel encrypt -t bob: the file does not open under bob's key{}", who.map(|n| format!(" - it opens under the key of the entry named '{}'", n)).unwrap_or_default()));
+                }
+            }
+        }
+        // two different key pairs whose keyring CHECKSUMS coincide (found by a birthday search over ~10^5 derived keys):
+        // a file made with one of them must not be attributed to the keyring entry of the other
+        {
+            use rayon::prelude::*;
+            let cands: Vec<([u8; 4], u32)> = (0..200_000u32)
+                .into_par_iter()
+                .map(|i| {
+                    let sk = derive32(seed, &format!("c05-coll-{}", i));
+                    let pk = r::x25519_base(&sk);
+                    let h = r::sha256(&pk);
+                    ([h[0], h[1], h[2], h[3]], i)
+                })
+                .collect();
+            let mut map: std::collections::HashMap<[u8; 4], u32> = std::collections::HashMap::new();
+            let mut pair: Option<(u32, u32)> = None;
+            for (c, i) in &cands {
+                if let Some(j) = map.insert(*c, *i) {
+                    pair = Some((j.min(*i), j.max(*i)));
+                    break;
+                }
+            }
+            rep.eval(1);
+            match pair {
+                None => crate::report::machinery("no checksum collision among 200000 derived keys (expected ~4.6)"),
+                Some((a, m)) => {
+                    let ska = derive32(seed, &format!("c05-coll-{}", a));
+                    let skm = derive32(seed, &format!("c05-coll-{}", m));
+                    let (pka, pkm) = (r::x25519_base(&ska), r::x25519_base(&skm));
+                    let text = format!("{}\n{}", bob.entry(true), proc::keyring_entry("alice", &r::encode_pk(&pka), None));
+                    let f = r::write_key_file(&skm, &bob.pk, &e, &pay, &pl, &[pl.len()]).unwrap();
+                    let sc = Scratch::new();
+                    sc.write("ring.txt", text.as_bytes());
+                    sc.write("m.ktl", &f);
+                    let o = proc::run(&Cmd::new(&["decrypt", "m.ktl", "-t", "bob", "-k", "ring.txt", "-o", "m.out", "--env-pass"]).env("KESTREL_PASSWORD", "bobpw"), &sc.0);
+                    rep.nontrivial(b"checksum-collision-pair");
+                    if o.stderr.contains("File from:") {
+                        rep.violation("cli-keyring/sender-attributed-to-a-key-with-the-same-checksum", json!({"kind":"cli-keyring","collision":[a, m]}), format!("a file made with the private key of {} is reported as `{}`: the keyring entry 'alice' holds a different key ({}) that merely has the same 4-byte checksum", r::encode_pk(&pkm), o.stderr.lines().find(|l| l.contains("File from:")).unwrap_or("").trim(), r::encode_pk(&pka)));
+                    } else if !o.ok() || !o.stderr.contains(&r::encode_pk(&pkm)) {
+                        rep.violation("cli-keyring/unknown-sender-not-reported", json!({"kind":"cli-keyring","collision":[a, m]}), format!("expected success with the unknown key's encoding, got {}", o.summary()));
+                    }
                 }
             }
         }
